@@ -44,6 +44,8 @@ From SeataV Require Gen.LockSet.
 Import ListNotations. Open Scope string_scope.
 Definition T := SeataV.Gen.LockSet.ls_table.
 Definition B := SeataV.Gen.LockSet.ls_brackets.
+Definition Live := filter (fun x => violatesb T (fst (fst x)) (snd (fst x)) (snd x)) ls_listed.
+Definition LeakLive := filter (fun f => existsb (fun r => (fst (fst r) =? f) && negb (snd r)) B) ls_leak_listed.
 """
 ACC_HEADER = """From Coq Require Import String List NArith Bool.
 From SeataV Require Import Conc.Accounting Conc.LockSetTable.
@@ -76,12 +78,12 @@ def diagnose():
     if not ok:
         return {"table_does_not_typecheck": out[-1200:]}
     exprs = [
-        "map (fun p => (a_var (fst p), a_file (fst p), a_func (fst p), a_line (fst p), a_func (snd p), a_line (snd p))) (failing_pairs ls_listed T)",
+        "map (fun p => (a_var (fst p), a_file (fst p), a_func (fst p), a_line (fst p), a_func (snd p), a_line (snd p))) (failing_pairs Live T)",
         "map (fun a => (a_file a, a_func a, a_line a, a_kind a)) (unknown_rows T)",
         "missing_registries ls_required T",
         "filter (fun x => negb (violatesb T (fst (fst x)) (snd (fst x)) (snd x))) ls_listed",
-        "filter (fun r => negb (snd r || existsb (String.eqb (fst (fst r))) ls_leak_listed)) B",
-        "filter (fun r => negb (existsb (String.eqb (fst (fst r))) ls_leak_listed)) SeataV.Gen.LockSet.ls_open_exits",
+        "filter (fun r => negb (snd r || existsb (String.eqb (fst (fst r))) LeakLive)) B",
+        "filter (fun r => negb (existsb (String.eqb (fst (fst r))) LeakLive)) SeataV.Gen.LockSet.ls_open_exits",
         "map (fun h => (hc_func h, hc_line h, hc_lock h, hc_mode h, hc_callee h)) (reentrant_calls SeataV.Gen.LockSet.ls_funcs SeataV.Gen.LockSet.ls_held_calls)",
         "closed_table SeataV.Gen.LockSet.ls_funcs",
     ]
@@ -265,10 +267,10 @@ def run(chk, replay_obj=None):
         bad = []
         if other:
             bad.append("%d target connections never given back, last statement e.g. %r" % (len(other), other[0]))
-        if undo_leaks and undo_closed:
-            bad.append("%d target connections held after phase-two undo although the source closes them" % len(undo_leaks))
-        if refresh_leaks and refresh_closed:
-            bad.append("%d target connections held after meta-data queries although the source closes them" % len(refresh_leaks))
+        if undo_leaks and (undo_closed or "leak.undo-conn" not in findings):
+            bad.append("%d target connections never given back after phase-two undo (last statement on undo_log; no listed finding covers it)" % len(undo_leaks))
+        if refresh_leaks and (refresh_closed or "leak.refresh-conn" not in findings):
+            bad.append("%d target connections never given back after meta-data queries (no listed finding covers it)" % len(refresh_leaks))
         if child["inuse1_delta"] > len(busy):
             bad.append("target pools report %d connections in use, only %d attributed" % (child["inuse1_delta"], len(busy)))
         if bad:
@@ -283,9 +285,26 @@ def run(chk, replay_obj=None):
                       {"theorem": "Props/P_C20.v (C20_lockset, C20_table_wf, C20_listed_findings_refuted, C20_brackets, C20_no_reentrant_lock)",
                        "diagnosis": diag, "coq_output": pr["out"][-1500:]}, found_dynamic)
 
-    # ---- known findings (each reproduces statically on every run; dynamic sightings are counted)
+    # ---- stale listing entries: listed findings that no longer reproduce on the regenerated tables.
+    # They exempt nothing (ls_live / ls_leak_live in Coq) and are reported, never passed over silently.
+    stale = []
     if pr["ok"]:
-        if "race.commonHook" in findings:
+        sv = vlib.coq_compute("C20", ACC_HEADER, ["ls_stale", "ls_leak_stale"])
+        for v, f1, f2 in re.findall(r'\("([^"]*)", "([^"]*)", "([^"]*)"\)', sv[0] or ""):
+            stale.append("id=race.%s listed pair (%s, %s) no longer violates the lock discipline / is no longer in the table" % (v.split(".")[-1], f1, f2))
+        for f in re.findall(r'"([^"]*)"', sv[1] or ""):
+            fid = "leak.refresh-conn" if f.endswith(".refresh") else "leak.undo-conn" if f.endswith(".Undo") else "leak." + f
+            stale.append("id=%s listed function %s gives its connection back on every path now (or takes none)" % (fid, f))
+    for st in stale:
+        line = "STALE-FINDING: property=C20 %s: remove it from KNOWN_FINDINGS.txt and coq/Conc/LockSetListing.v" % st
+        print(line)
+        chk.notes.append(line)
+    chk.coverage["stale_findings"] = stale
+
+    # ---- known findings (each reproduces statically on every run; dynamic sightings are counted)
+    live_pairs = [t for t in listed if not any(("(%s, %s)" % (t[1], t[2])) in st and t[0].split(".")[-1] in st for st in stale)]
+    if pr["ok"]:
+        if "race.commonHook" in findings and live_pairs:
             chk.known("id=race.commonHook exec.commonHook is written by RegisterCommonHook/CleanCommonHook without a lock while "
                       "BuildExecutor reads it (C20_listed_findings_refuted holds; race reports on it this run: %d)" % len(rc["listed"]))
         if "leak.undo-conn" in findings and not undo_closed:
